@@ -19,20 +19,23 @@ def num (h : Nat) : Nat := if expOf h = 0 then manOf h * 2 else (8388608 + manOf
 /-- pattern of +∞ (0x7f800000); the finite non-negative patterns are `0 … 0x7f7fffff` -/
 def infPat : Nat := 2139095040
 
-/-- round the non-negative rational `n/d` (`d > 0`) to the nearest binary32 magnitude, ties to the even pattern;
+/-- (`pick Y d e`: the rounding step of `roundMag` for `y = Y/d` and unit exponent `e`.)
+    Round the non-negative rational `n/d` (`d > 0`) to the nearest binary32 magnitude, ties to the even pattern;
     `infPat` on overflow.  `y = n·2^150/d`; `e` = exponent of the unit in the last place at `y` (1 up to the first
     normal binade, `⌊log₂ y⌋ − 23` above); `q = ⌊y/2^e⌋` is the integer significand; the pattern below `y` is
     `(e−1)·2^23 + q` (a carry into the exponent field is the next binade, 0x7f800000 is +∞). -/
-def roundMag (n d : Nat) : Nat :=
-  let Y := n * 2 ^ 150
-  let fl := Y / d
-  let e := if fl < 16777216 then 1 else Nat.log2 fl - 23
+def pick (Y d e : Nat) : Nat :=
   let D := d * 2 ^ e
   let q := Y / D
   let r := Y % D
   let h0 := (e - 1) * 8388608 + q
   let h := if 2 * r < D then h0 else if D < 2 * r then h0 + 1 else if h0 % 2 = 0 then h0 else h0 + 1
   min h infPat
+
+def roundMag (n d : Nat) : Nat :=
+  let Y := n * 2 ^ 150
+  let fl := Y / d
+  pick Y d (if fl < 16777216 then 1 else Nat.log2 fl - 23)
 
 /-- the dyadic `(negative, n, d)` with `|x| = n/d` of a finite binary64 pattern -/
 def f64Dyadic (b : Nat) : Bool × Nat × Nat :=
